@@ -150,6 +150,40 @@ fn families(quick: bool, max_digits: u32, window: bool) -> Vec<i128> {
             v.push(-(b + d));
         }
     }
+    // F-split: a * 10^k + b where the quotient a or the remainder b sits on a machine-width
+    // boundary (an implementation may peel digits off in blocks of 10^k and continue in a
+    // narrower type)
+    {
+        let mut edges: Vec<i128> = Vec::new();
+        for w in [7u32, 8, 15, 16, 24, 31, 32, 53, 63, 64] {
+            for d in -2i128..=2 {
+                edges.push((1i128 << w) + d);
+            }
+        }
+        let mut pk: i128 = 10;
+        for _k in 1..=22 {
+            let rems = [0, 1, pk / 2, pk - 1, pk / 10, pk / 10 * 9 + 7];
+            for &a in &edges {
+                for b in rems {
+                    if let Some(x) = a.checked_mul(pk).and_then(|x| x.checked_add(b)) {
+                        v.push(x);
+                        v.push(-x);
+                    }
+                }
+            }
+            for &b in &edges {
+                if b < pk {
+                    for a in [1i128, 9, 42, 99999] {
+                        if let Some(x) = a.checked_mul(pk).and_then(|x| x.checked_add(b)) {
+                            v.push(x);
+                            v.push(-x);
+                        }
+                    }
+                }
+            }
+            pk = pk.saturating_mul(10);
+        }
+    }
     if window {
         // F-window: every digit count D, every position of a 4-digit window, every window value,
         // three backgrounds
@@ -320,7 +354,7 @@ fn c14(cx: &Ctx, quick: bool) {
         check_int!(cx, isize, isize::MAX - d as isize, c);
     }
     let total = cnt.load(Ordering::Relaxed) + c;
-    cx.domain("F-pow + F-window + extremes: 10^k+d, 2^k+d (|d|<=3), every digit count x 4-digit window position x window value x 3 backgrounds, both signs, type extremes, mirrored from u128::MAX", total, true, &format!("{} candidate values, each tried in every integer type that can hold it{}", fam.len(), if quick { " (quick tier: every 7th window value)" } else { "" }));
+    cx.domain("F-pow + F-split + F-window + extremes: 10^k+d, 2^k+d (|d|<=3); a*10^k+b with a or b on a machine-width boundary (2^7..2^64 +-2) for every k; every digit count x 4-digit window position x window value x 3 backgrounds; both signs, type extremes, mirrored from u128::MAX", total, true, &format!("{} candidate values, each tried in every integer type that can hold it{}", fam.len(), if quick { " (quick tier: every 7th window value)" } else { "" }));
     for (k, v) in per_digits.into_inner().unwrap() {
         cx.class(format!("family/{k}"), v);
     }
@@ -345,6 +379,55 @@ fn c14(cx: &Ctx, quick: bool) {
 
 // ---------------------------------------------------------------------------------------
 // C15
+
+/// A minimal allocator hook for the "never a partial string" clause of C15: it can refuse the
+/// k-th request the crate issues on this thread (everything else goes to the system allocator).
+mod refuse {
+    use lean_string::verif_hooks::{Access, HookTable};
+    use std::alloc::Layout;
+    use std::cell::Cell;
+    thread_local! {
+        pub static COUNT: Cell<u64> = const { Cell::new(0) };
+        pub static FAIL_AT: Cell<u64> = const { Cell::new(0) };
+    }
+    fn refuse_now() -> bool {
+        let n = COUNT.with(|c| {
+            c.set(c.get() + 1);
+            c.get()
+        });
+        FAIL_AT.with(|f| f.get() == n)
+    }
+    unsafe fn a(l: Layout) -> *mut u8 {
+        if refuse_now() { std::ptr::null_mut() } else { unsafe { std::alloc::alloc(l) } }
+    }
+    unsafe fn r(p: *mut u8, l: Layout, n: usize) -> *mut u8 {
+        if refuse_now() { std::ptr::null_mut() } else { unsafe { std::alloc::realloc(p, l, n) } }
+    }
+    unsafe fn d(p: *mut u8, l: Layout) {
+        unsafe { std::alloc::dealloc(p, l) }
+    }
+    fn note(_: Access, _: *const u8, _: isize, _: usize, _: &'static str) {}
+    pub static TABLE: HookTable = HookTable { alloc: a, realloc: r, dealloc: d, note };
+    /// runs f with the k-th request refused (k = 0: none); returns (result, requests issued)
+    pub fn with<R>(k: u64, f: impl FnOnce() -> R) -> (R, u64) {
+        COUNT.with(|c| c.set(0));
+        FAIL_AT.with(|x| x.set(k));
+        let r = f();
+        FAIL_AT.with(|x| x.set(0));
+        (r, COUNT.with(|c| c.get()))
+    }
+}
+
+/// writes its pieces and ignores what write_str returns
+struct Swallow<'a>(Vec<&'a str>);
+impl Display for Swallow<'_> {
+    fn fmt(&self, f: &mut fmt::Formatter<'_>) -> fmt::Result {
+        for p in &self.0 {
+            let _ = f.write_str(p);
+        }
+        Ok(())
+    }
+}
 
 struct Pieces<'a> {
     pieces: Vec<&'a str>,
@@ -533,6 +616,50 @@ fn c15(cx: &Ctx, quick: bool) {
             c2 += 1;
         }
     }
+    // never a partial string: with every single allocator request refused in turn, the result is
+    // Err(..) (or a panic in the plain form) or the complete text - for Display impls that
+    // propagate write errors and for ones that swallow them
+    lean_string::verif_hooks::install(Some(&refuse::TABLE));
+    let mut c3 = 0u64;
+    for n in 1..=4usize {
+        for code in 0..sizes.len().pow(n as u32) {
+            let mut x = code;
+            let mut pieces = Vec::new();
+            let mut off = 0;
+            for _ in 0..n {
+                let s = sizes[x % sizes.len()];
+                x /= sizes.len();
+                pieces.push(&long[off..off + s]);
+                off += s;
+            }
+            let full: String = pieces.concat();
+            for swallow in [false, true] {
+                let run = |k: u64| {
+                    refuse::with(k, || {
+                        std::panic::catch_unwind(std::panic::AssertUnwindSafe(|| {
+                            if swallow { Swallow(pieces.clone()).try_to_lean_string() } else { Pieces { pieces: pieces.clone(), err_after: None }.try_to_lean_string() }
+                        }))
+                    })
+                };
+                let (_, requests) = run(0);
+                for k in 1..=requests {
+                    c3 += 1;
+                    let (r, _) = run(k);
+                    let ok = match &r {
+                        Ok(Ok(s)) => s.as_str() == full,
+                        Ok(Err(_)) => true,
+                        Err(_) => false,
+                    };
+                    if !ok {
+                        cx.fail("Display-partial/under-refused-allocation", format!("try_to_lean_string of a Display writing pieces of sizes {:?} (swallowing write errors: {swallow}) with allocator request {k} refused returned {:?}; the complete text is {full:?}", pieces.iter().map(|p| p.len()).collect::<Vec<_>>(), r.as_ref().map(|x| x.as_ref().map(|s| s.as_str().to_string())).map_err(|_| "panic")), json!({"piece_sizes_code": code, "n": n, "swallow": swallow, "refuse": k}));
+                    }
+                }
+            }
+        }
+    }
+    lean_string::verif_hooks::install(None);
+    cx.domain("never a partial string: piece-size sequences {0,1,7,8,9,16,17}^(<=4), propagating and swallowing Display impls, every single allocator request refused in turn", c3, true, "try_to_lean_string must return Err or the complete text");
+    cx.class("display-under-refusal".into(), c3);
     cx.domain("user Display types: every split of every base text at char boundaries; every error position; piece-size sequences {0,1,7,8,9,16,17}^(<=4)", cnt.load(Ordering::Relaxed) + c2, true, &format!("{} base texts", base.len()));
     cx.class("display-pieces".into(), cnt.load(Ordering::Relaxed) + c2);
     // floats
